@@ -82,20 +82,25 @@ class ADX(Indicator):
             negative = down if down > up and down > 0 else 0
             self.managed_indicators["ADX_data"].set_reading({"pos": positive, "neg": negative})
 
-            if self.reading(f"{self.name}_atr") and self.reading(f"{self.name}_pos"):
-                mod = 100 / self.reading(f"{self.name}_atr")
+            if (
+                self.reading(f"{self.name}_atr") is not None
+                and self.reading(f"{self.name}_pos") is not None
+            ):
+                atr = self.reading(f"{self.name}_atr")
+                mod = 100 / atr if atr != 0 else 0.0
 
                 adx_positive = mod * self.reading(f"{self.name}_pos")
                 adx_negative = mod * self.reading(f"{self.name}_neg")
 
-                dx = 100 * abs(adx_positive - adx_negative) / (adx_positive + adx_negative)
+                dm_sum = adx_positive + adx_negative
+                dx = 100 * abs(adx_positive - adx_negative) / dm_sum if dm_sum != 0 else 0.0
 
                 self.managed_indicators["ADX_data"].set_reading(
                     {"pos": positive, "neg": negative, "dx": dx}
                 )
                 self.managed_indicators["dx"].calculate_index(index)
 
-                if self.reading(f"{self.name}_dx"):
+                if self.reading(f"{self.name}_dx") is not None:
                     adx_final = self.reading(f"{self.name}_dx")
 
         return {"ADX": adx_final, "DM_Plus": adx_positive, "DM_Neg": adx_negative}
